@@ -845,6 +845,21 @@ def gen_helpers(rng, add, big, fields, gfq):
             A, B = sp[i], sp[(7 * i + 3) % len(sp)]
             if A or B:
                 add("gcd", F, [], [A, B], {}, "structured")
+        # sizes on both sides of 2^8 (and, for the derivative, 2^16): index / counter types narrower than the degree
+        if F.q in (2, 101) and isinstance(F, Fp):
+            for d in (255, 256, 257, 300) + ((65535, 65536, 65537) if F.q == 101 else ()):
+                P = [((7 * i * i + 3 * i + 1) % F.q if i % 5 else 0) for i in range(d)] + [1]
+                add("diff", F, [], [P], {"nomodel": d > 1000}, "degree %d" % d)
+            for d in (255, 256, 257):
+                A = [((5 * i * i + i + 2) % F.q) for i in range(d)] + [1]
+                G = [1, 1, 0, 1] if F.q == 2 else [3, 0, 1, 1]
+                add("gcd", F, [], [pmul(F, A, G), pmul(F, pdiff(F, A) or [1], G)], {"nomodel": True}, "degree %d" % d)
+                add("powmod", F, [], [[0, 1], str(F.q ** 3), A], {"nomodel": True}, "modulus of degree %d" % d)
+            for d in (128, 129):                       # square-free decomposition of f^2 g, deg = 3 d +- : parts multiply back
+                f = [((3 * i * i + 2 * i + 1) % F.q) for i in range(d)] + [1]
+                g = [((i * i + 5 * i + 2) % F.q) for i in range(d - 1)] + [1]
+                if F.q > 2:
+                    add("sqrfree", F, [], [pmul(F, pmul(F, f, f), g)], {"nomodel": True}, "multiplicities<char; degree %d" % (3 * d - 1))
         for i in range(8 if not big else 60):
             G = rand_poly(rng, F, rng.range(0, 4))
             add("gcd", F, [], [pmul(F, G, rand_poly(rng, F, rng.range(0, 5))), pmul(F, G, rand_poly(rng, F, rng.range(0, 5)))], {}, "common factor")
